@@ -325,7 +325,7 @@ func RunC16(c *Ctx) {
 				}
 			}
 		})
-		if c.Rec.WantSample() && wok && c.Rec.R.Cases%4001 == 1 {
+		if wok && c.Rec.CN("string_tokens_eligible_as_samples")%3001 == 1 && c.Rec.WantSample() {
 			c.Rec.Sample(map[string]interface{}{"input": h.Quote(d), "how": cs.Describe(), "checked": "input held in a PROT_READ page through every API call; destinations of 35 (len,cap) shapes; scratch of 12 shapes; returned string/tree re-read after overwriting input and scratch"})
 		}
 	}
